@@ -180,7 +180,7 @@ func mapFromTable(mt Sx) fsutil.MapFunc {
 	}
 }
 
-func guarded(f func() Sx) (out Sx) {
+func guardedC10(f func() Sx) (out Sx) {
 	ch := make(chan Sx, 1)
 	go func() {
 		defer func() {
@@ -251,7 +251,7 @@ func realFilterWalk(view []*MNode, inc, exc []string, mt Sx, wi *walkInfo) Sx {
 // real fsutil.NewFilterFS(MemFS(view), {include, exclude, map}).Walk(ctx, "/", fn)
 func run1001(in Sx) Sx {
 	defer quietStderr()()
-	return guarded(func() Sx {
+	return guardedC10(func() Sx {
 		return realFilterWalk(SxView(in.L[0]), sxStrings(in.L[1]), sxStrings(in.L[2]), in.L[3], nil)
 	})
 }
@@ -269,7 +269,7 @@ func relPrefixes(p string) []string {
 // real MatchesOrParentMatches(path) and the MatchesUsingParentResults chain down the path
 func run1002(in Sx) Sx {
 	defer quietStderr()()
-	return guarded(func() Sx {
+	return guardedC10(func() Sx {
 		raws := sxStrings(in.L[0])
 		path := in.L[1].Str()
 		pm, err := patternmatcher.New(raws)
@@ -309,7 +309,7 @@ func run1002(in Sx) Sx {
 // the real single-pattern matcher on one (pattern, path) pair
 func run1003(in Sx) Sx {
 	defer quietStderr()()
-	return guarded(func() Sx {
+	return guardedC10(func() Sx {
 		rp, ok, err := realPattern(in.L[0].Str())
 		if err != nil {
 			return L(N(0xffff))
@@ -329,7 +329,7 @@ func (openFS) Open(string) (io.ReadCloser, error)                   { return io.
 // real filterFS.Open over an FS whose Open always succeeds: allowed <=> no error
 func run1004(in Sx) Sx {
 	defer quietStderr()()
-	return guarded(func() Sx {
+	return guardedC10(func() Sx {
 		inc, exc, path := sxStrings(in.L[0]), sxStrings(in.L[1]), in.L[2].Str()
 		f, err := fsutil.NewFilterFS(openFS{}, &fsutil.FilterOpt{IncludePatterns: inc, ExcludePatterns: exc})
 		if err != nil {
@@ -631,7 +631,7 @@ func emit1001(g *Gen, view []*MNode, inc, exc []string, mt Sx, tag string) {
 	in := c10Case(view, inc, exc, mt)
 	wi := &walkInfo{}
 	restore := quietStderr()
-	out := guarded(func() Sx { return realFilterWalk(view, inc, exc, mt, wi) })
+	out := guardedC10(func() Sx { return realFilterWalk(view, inc, exc, mt, wi) })
 	restore()
 	// a directory was pruned by a shortcut: it was visited, its first child was not, and the map
 	// table answers SkipDir neither for it nor for an ancestor (the only other ways a directory's
